@@ -3,7 +3,10 @@ prop("C09", pkg="c09",
           "proto Marshal+Unmarshal / Size / TypeOf, thrift Marshal+Unmarshal in compact and binary} over a table of 2..8 struct types accepted by all three packages "
           "(bool, int32, int64, float64, string, bytes, []int64, []string, map[string]int32, nested and pointer-to struct fields), 3/4 of them fresh (materialised with "
           "a process-unique nonce so the codec caches have never seen them), most goroutines starting on the same 'hot' type; every fifth value is large (strings of "
-          "6..56 KB, 3000-element slices) to force pooled buffers to grow. The test binary is built with -race and run at GOMAXPROCS 16, 4 and 2. Oracle: every "
+          "6..56 KB, 3000-element slices) to force pooled buffers to grow; in a third of the scripts one more goroutine forces garbage collections during every round "
+          "(memory the library keeps only behind unsafe pointers or wrongly typed scratch is then collected while in use). A second generator draws one json type "
+          "from the whole jgen type space (fresh nonce), and 2..12 goroutines encode a value and decode a document 1..6 times each, half of the time under forced GC. "
+          "proto.TypeOf results include the identity of the descriptor. The test binary is built with -race and run at GOMAXPROCS 16, 4 and 2. Oracle: every "
           "result equals the result of the same call executed alone afterwards; the race detector reports nothing; the process does not die. Non-trivial = a fresh "
           "type whose first use was performed by >= 2 goroutines in the same round; distinct = FNV-64 of the script.",
      quick=dict(shards=5, scale=1, timeout=900),
